@@ -86,7 +86,7 @@ static void * worker(void * arg) {
     ph_t * p = &ph[i];
     switch (p->kind) {
     case P_COUNTER: for (int k = 0; k < p->b; k++) { if (pthread_mutex_lock(CM(p->a))) rc_flags |= 128; long t = counter[p->a]; if (k & 1) sched_yield(); counter[p->a] = t + 1; if (pthread_mutex_unlock(CM(p->a))) rc_flags |= 128; } break;
-    case P_TRYCOUNTER: for (int k = 0; k < p->b; k++) { while (pthread_mutex_trylock(CM(p->a)) != 0) sched_yield(); counter[p->a]++; pthread_mutex_unlock(CM(p->a)); } break;
+    case P_TRYCOUNTER: for (int k = 0; k < p->b; k++) { for (;;) { int tr = pthread_mutex_trylock(CM(p->a)); if (tr == 0) break; if (tr != EBUSY) rc_flags |= 512; sched_yield(); } if (k == 0 && pthread_mutex_trylock(CM(p->a)) != EBUSY) rc_flags |= 1024; /* held by the caller: busy */ counter[p->a]++; pthread_mutex_unlock(CM(p->a)); } break;
     case P_BARRIER: { int r = pthread_barrier_wait(&bar); if (r == PTHREAD_BARRIER_SERIAL_THREAD) { pthread_mutex_lock(&cm); serial_total++; pthread_mutex_unlock(&cm); } else if (r != 0) bad_flags |= 1; break; }
     case P_TURNSTILE:
       pthread_mutex_lock(&cm);
@@ -110,7 +110,7 @@ static void * worker(void * arg) {
       }
       pthread_mutex_unlock(&cm);
       break;
-    case P_SPIN: for (int k = 0; k < p->b; k++) { if (p->v & 1) { while (pthread_spin_trylock(&sp) != 0) sched_yield(); } else if (pthread_spin_lock(&sp)) rc_flags |= 64; spin_counter++; if (pthread_spin_unlock(&sp)) rc_flags |= 64; } break;
+    case P_SPIN: for (int k = 0; k < p->b; k++) { if (p->v & 1) { for (;;) { int tr = pthread_spin_trylock(&sp); if (tr == 0) break; if (tr != EBUSY) rc_flags |= 512; sched_yield(); } if (k == 0 && pthread_spin_trylock(&sp) != EBUSY) rc_flags |= 1024; } else if (pthread_spin_lock(&sp)) rc_flags |= 64; spin_counter++; if (pthread_spin_unlock(&sp)) rc_flags |= 64; } break;
     case P_ONCE: RC(pthread_once(&once_ctl[p->a], once_fn[p->a])); if (once_cnt[p->a] != 1) bad_flags |= 2; break;
     case P_KEYSET: RC(pthread_setspecific(keys[p->a], (void *)(intptr_t)(1000 + me * 16 + p->a))); break;
     case P_KEYGET: { void * v = pthread_getspecific(keys[p->a]); if (v && v != (void *)(intptr_t)(1000 + me * 16 + p->a)) key_ok[me]++; break; }
